@@ -78,8 +78,16 @@ def errs(evs):
 class Sides:
     """normal driver, ASan driver, extracted model; built once per check"""
     def __init__(self, chk):
-        self.drv = vlib.build_drivers(["parse_driver"])["parse_driver"]
-        self.asan = vlib.build_drivers(["parse_driver"], "asan")["parse_driver"]
+        # private copies: other checks may relink the shared driver directories while the streams below run
+        d = os.path.join(vlib.WORK, "tmp", "c11bin-%s" % chk.pid)
+        os.makedirs(d, exist_ok=True)
+        def private(path, lock, name):
+            dst = os.path.join(d, name)
+            with vlib.Lock(lock):
+                shutil.copy2(path, dst)
+            return dst
+        self.drv = private(vlib.build_drivers(["parse_driver"])["parse_driver"], "drv-hooks", "parse_driver")
+        self.asan = private(vlib.build_drivers(["parse_driver"], "asan")["parse_driver"], "drv-asan", "parse_driver_asan")
         self.model = vlib.model_bin(AREA)
 
 def sides(chk):
@@ -609,11 +617,20 @@ def cli_scenario(chk, llb, S, style, name, mode, event, variant, malformed=None)
         return ("spurious-reexecution", "the command re-executed although nothing changed since the previous build", rp)
     return (None, "", rp)
 
-def cli_part(chk):
+def private_llbuild(base):
+    """a private copy of the freshly built llbuild: other checks may relink _work/b-hooks/bin/llbuild while the
+    histories below run (the copy is taken under the lock that guards that build directory)"""
     llb = vlib.llbuild_bin()
+    dst = os.path.join(base, "llbuild")
+    with vlib.Lock("build-hooks"):
+        shutil.copy2(llb, dst)
+    return dst
+
+def cli_part(chk):
     base = os.path.join(vlib.WORK, "tmp", "c11")
     shutil.rmtree(base, ignore_errors=True)
     os.makedirs(base)
+    llb = private_llbuild(base)
     rng = chk.rng
     scen = []
     if chk.quick():
@@ -719,7 +736,8 @@ def replay(chk, rp):
     sc = rp.get("scenario")
     if sc:
         S = os.path.join(vlib.WORK, "tmp", "c11", "replay")
-        key, what, r2 = cli_scenario(chk, vlib.llbuild_bin(), S, sc["style"], unhx(sc["name_hex"]), sc["mode"], sc["event"], sc["variant"],
+        os.makedirs(os.path.dirname(S), exist_ok=True)
+        key, what, r2 = cli_scenario(chk, private_llbuild(os.path.dirname(S)), S, sc["style"], unhx(sc["name_hex"]), sc["mode"], sc["event"], sc["variant"],
                                      malformed=unhx(sc["malformed_hex"]) if sc.get("malformed_hex") else None)
         print("scenario replayed: %s" % (("FAILS: " + key + " - " + what) if key else "passes"))
         for b in r2["builds"]:
